@@ -187,6 +187,44 @@ fn op_histogram(p: &PhysicalOperator, ctx: &mut Ctx) {
 // ------------------------------------------------------------------------------------
 
 fn permute_bgps(g: &[P], r: &mut Rng) -> Vec<P> {
+    let mut out = permute_bgps_in_place(g, r);
+    // triple blocks that are adjacent (only FILTERs between them) are one basic graph pattern:
+    // their triples are also exchanged across the blocks
+    let mut i = 0;
+    while i < out.len() {
+        if !matches!(out[i], P::Bgp(_)) {
+            i += 1;
+            continue;
+        }
+        let mut run = vec![i];
+        let mut j = i + 1;
+        while j < out.len() && matches!(out[j], P::Bgp(_) | P::Filter(_)) {
+            if matches!(out[j], P::Bgp(_)) {
+                run.push(j);
+            }
+            j += 1;
+        }
+        if run.len() > 1 {
+            let mut pool = vec![];
+            let mut sizes = vec![];
+            for &k in &run {
+                if let P::Bgp(ts) = &out[k] {
+                    sizes.push(ts.len());
+                    pool.extend(ts.iter().cloned());
+                }
+            }
+            r.shuffle(&mut pool);
+            let mut it = pool.into_iter();
+            for (&k, n) in run.iter().zip(sizes) {
+                out[k] = P::Bgp(it.by_ref().take(n).collect());
+            }
+        }
+        i = j;
+    }
+    out
+}
+
+fn permute_bgps_in_place(g: &[P], r: &mut Rng) -> Vec<P> {
     g.iter()
         .map(|p| match p {
             P::Bgp(ts) => {
